@@ -77,7 +77,7 @@ def main(argv):
             lines += run_harness(v, ['text', fmtname, f] + ([game] if game else []), seed)
         if not replay:
             nraw = 2 if tier == 'quick' else 60
-            nsrc = 6 if tier == 'quick' else 150
+            nsrc = 5 if tier == 'quick' else 150
             lines += run_harness(v, ['raw', nraw] + (['quick'] if tier == 'quick' else []), seed)
             lines += run_harness(v, ['src', nsrc], seed, timeout=3000)
         for l in lines:
@@ -118,7 +118,7 @@ def main(argv):
 
     if v.corr_ok and cases:
         # (X) model vs implementation: bytes written and instructions read back
-        mism, errs = coq_eval_cases(PROP, IMPORTS, 'c03case', cases, shard=max(40, (len(cases) + 15) // 16) if tier == 'quick' else 250)
+        mism, errs = coq_eval_cases(PROP, IMPORTS, 'c03case', cases, shard=max(100, (len(cases) + 4) // 5) if tier == 'quick' else 400)   # starting a coqc costs more than evaluating 100 cases
         v.obligation('correspondence: model = implementation on %d scripts (bytes written, instructions/diagnostic/panic on reading back; vm_compute inside Coq)' % len(cases),
                      not mism and not errs, ('%d mismatches; ' % len(mism)) + '; '.join(errs)[:600] if (mism or errs) else '')
         for i in mism[:5]:
